@@ -45,8 +45,12 @@ def extract_labels(text):
 
 
 def make_trace_module(spec, variables, runs, extra_defs="", extends_extra="", use_next="Next", use_init="Init",
-                      reset_extra="", labels=None):
-    """runs: list of runs; a run is a list of state strings (first = initial state, the rest
+                      reset_extra="", labels=None, conform=True, hist_step=""):
+    """conform=True: every step must be a step of the spec (use_next, or the logged action when labels
+    are given). conform=False: P-level mode -- the recorded states are taken as they are (no Next), only
+    invariants / action properties are evaluated on them; hist_step (an action over vars, vars' and history
+    variables) then defines how history variables evolve.
+    runs: list of runs; a run is a list of state strings (first = initial state, the rest
     successive steps) or of tuples (kind, ref, state) with kind 'i' (initial state), 's' (step from
     the previous record) or 'j' (jump to a state that already occurs at position ref of the same
     run, 0-based; ref must precede the record). Returns module text of <spec>Trace."""
@@ -67,7 +71,11 @@ def make_trace_module(spec, variables, runs, extra_defs="", extends_extra="", us
                 kind, ref, sts = st
                 ref = base + ref + 1
             recs.append('[k |-> "%s", r |-> %d, st |-> %s%s]' % (kind, ref, sts, pl))
-    if labels:
+    hs = (" /\\ " + hist_step) if hist_step else ""
+    if not conform:
+        use_next = "TRUE"
+        act = 'TraceAct == ZK("a") /\\ ZMatchP(ZTrace[l + 1].st)' + hs
+    elif labels:
         act = "ZAct(zp, zl) ==\n" + "\n".join('    \\/ (zl = "%s" /\\ %s(zp))' % (lb, lb) for lb in labels)
         act += '\nTraceAct == ZK("a") /\\ ZMatchP(ZTrace[l + 1].st) /\\ ZAct(ZTrace[l + 1].p, ZTrace[l + 1].lb)'
         if use_next != "Next":
@@ -87,7 +95,7 @@ ZMatch(zst) == %(match)s
 ZMatchP(zst) == %(matchp)s
 ZK(zk) == l < Len(ZTrace) /\\ ZTrace[l + 1].k = zk /\\ l' = l + 1
 TraceInit == l = 1 /\\ %(init)s /\\ ZMatch(ZTrace[1].st)
-TraceStep == ZK("s") /\\ ZMatchP(ZTrace[l + 1].st) /\\ %(next)s
+TraceStep == ZK("s") /\\ ZMatchP(ZTrace[l + 1].st) /\\ %(next)s%(hs)s
 %(act)s
 TraceReset == ZK("i") /\\ ZMatchP(ZTrace[l + 1].st) %(rx)s /\\ (%(init)s)'
 TraceJump == ZK("j") /\\ ZTrace[l + 1].r <= l /\\ ZTrace[ZTrace[l + 1].r].st = ZTrace[l + 1].st /\\ ZMatchP(ZTrace[l + 1].st)
@@ -95,7 +103,8 @@ TraceNext == TraceStep \\/ TraceAct \\/ TraceReset \\/ TraceJump
 %(extra)s
 ====
 """ % {"spec": spec, "ext": extends_extra, "data": ",\n".join(recs), "match": match, "matchp": matchp,
-       "extra": extra_defs, "next": use_next, "init": use_init, "rx": reset_extra, "act": act}
+       "extra": extra_defs, "next": use_next, "init": use_init, "rx": reset_extra, "act": act,
+       "hs": hs if not conform else ""}
 
 
 def make_cfg(constants, invariants, properties=(), action_constraints=()):
@@ -112,11 +121,12 @@ def make_cfg(constants, invariants, properties=(), action_constraints=()):
 
 
 def _validate_once(specdir, spec, variables, runs, cfgtext, extra_defs, extends_extra, timeout, use_next,
-                   use_init="Init", reset_extra="", labels=None):
+                   use_init="Init", reset_extra="", labels=None, conform=True, hist_step=""):
     work = tempfile.mkdtemp(prefix="tv.", dir=os.path.dirname(specdir))
     V.copy_specs(specdir, work)
     with open(os.path.join(work, spec + "Trace.tla"), "w") as f:
-        f.write(make_trace_module(spec, variables, runs, extra_defs, extends_extra, use_next, use_init, reset_extra, labels))
+        f.write(make_trace_module(spec, variables, runs, extra_defs, extends_extra, use_next, use_init, reset_extra, labels,
+                                  conform, hist_step))
     with open(os.path.join(work, spec + "Trace.cfg"), "w") as f:
         f.write(cfgtext)
     res = V.tlc(work, spec + "Trace", cfg=spec + "Trace.cfg", workers=1, timeout=timeout, deadlock=False)
@@ -126,7 +136,7 @@ def _validate_once(specdir, spec, variables, runs, cfgtext, extra_defs, extends_
 
 def validate_runs(specdir, spec, variables, runs, constants, invariants, properties=(), extra_defs="",
                   extends_extra="", timeout=900, chunks=1, max_rounds=6, use_next="Next", use_init="Init",
-                  reset_extra="", labels=None):
+                  reset_extra="", labels=None, conform=True, hist_step=""):
     """Validate runs (list of list of state strings; each run starts in an initial state).
     Returns dict(accepted, rejected=[dict(run_index, kind, text, state_index)], states, transitions, errors)."""
     out = {"accepted": 0, "rejected": [], "states": 0, "transitions": 0, "errors": []}
@@ -146,7 +156,7 @@ def validate_runs(specdir, spec, variables, runs, constants, invariants, propert
             rr = [runs[i] for i in part]
             total = sum(len(r) for r in rr)
             res = _validate_once(specdir, spec, variables, rr, cfgtext, extra_defs, extends_extra, timeout, use_next,
-                                 use_init, reset_extra, labels)
+                                 use_init, reset_extra, labels, conform, hist_step)
             st += res.distinct
             tr += res.generated
             if res.timed_out or res.error:
